@@ -20,7 +20,10 @@ fn is_tie(x: f64) -> bool {
 /// returns Some(description) on violation
 fn check_model(p: &[MeanVari], rep: &Report, ties: &AtomicU64, floors: &AtomicU64) -> Option<(String, String, f64)> {
     let ns = p.len();
-    let est = DurationEstimator::new(p.to_vec(), 1);
+    // the states-per-phoneme argument only matters for alignment; create() must not depend on it (1, the whole length,
+    // a divisor or a non-divisor of the length)
+    let nstate_arg = [1usize, ns.max(1), 2, 5, 3][(ns + p.iter().map(|m| m.0 as usize).sum::<usize>()) % 5];
+    let est = DurationEstimator::new(p.to_vec(), nstate_arg);
     let d1 = match catch(|| est.create(1.0)) {
         Ok(d) => d,
         Err(e) => return Some(("panic".into(), e, 1.0)),
@@ -95,7 +98,7 @@ fn check_model(p: &[MeanVari], rep: &Report, ties: &AtomicU64, floors: &AtomicU6
 
 pub fn run(tier: Tier) -> i32 {
     let rep = Report::new("C08", tier, "model_checking");
-    rep.set_rule("SCOPE: full product over states 1..N of (mean in {0.2,0.49,0.5,1.5,2.5,10,60}) x (variance in {0,1e-3,1,400}) x speed lattice {0.1..50} plus F1/(k+0.5)(1±1e-9) rounding boundaries, on the real DurationEstimator::create; plus long utterances (200 and 1500 states, totals up to 10^6 frames); distinct = distinct (model, speed) pairs; non-trivial = every case (each evaluates the total-frames law)");
+    rep.set_rule("SCOPE: full product over states 1..N of (mean in {0.2,0.49,0.5,1.5,2.5,10,60}) x (variance in {0,1e-3,1,400}) x speed lattice {0.1..50} plus F1/(k+0.5)(1±1e-9) rounding boundaries, on the real DurationEstimator::create (constructed with states-per-phoneme 1, 2, 3, 5 or the whole length); plus long utterances (200 and 1500 states, totals up to 10^6 frames); distinct = distinct (model, speed) pairs; non-trivial = every case (each evaluates the total-frames law)");
     rep.assume("means/variances/speeds outside the listed alphabets are not explored; at exact .5 ties either rounding is accepted");
     let max_states = tier.pick(4usize, 5usize);
     let per = MEANS.len() * VARS.len();
